@@ -478,6 +478,15 @@ fn judge_file(st: &mut Stats, rng: &mut Rng, workdir: &str, seed: u64, m: &Mesh1
     let case = st.next_case();
     let fname = format!("{}/c19_p{}_s{}_u{}_c{}.dat", workdir, std::process::id(), seed, st.unit, case);
     let desc = || format!("output(precision {}) / read: grid={} nvars={} model={:?} file={}", p, g.show(), nv, s.data, fname);
+    // half of the time the path already holds a LONGER mesh written earlier by the library (state carried between
+    // two calls on the same file): output must replace it, not overwrite its beginning
+    if rng.bool() {
+        let nbig = n + rng.usize(1, 9);
+        let mut big = Mesh1D::<f64, f64>::new(Vector::<f64>::linspace(-50.0, 50.0, nbig), nv);
+        for i in 0..nbig { for v in 0..nv { big[i][v] = 123456.0 + (i * 7 + v) as f64; } }
+        let _ = catch(|| big.output(&fname, p.max(3)));
+        st.count("file:path-held-a-longer-mesh-before");
+    }
     if call(st, "output1d", "f64", &desc, || m.output(&fname, p)).is_none() { let _ = std::fs::remove_file(&fname); return; }
     st.eval();
     // destination: different node count and garbage contents
